@@ -425,6 +425,8 @@ def parse_url(url: str) -> Url:
                 auth = _encode_invalid_chars(auth, _USERINFO_CHARS)
             if port == "":
                 port = None
+            if host == "":
+                host = None
         else:
             auth, host, port = None, None, None
 
